@@ -112,6 +112,24 @@ theorem G17_run_rejects_iff_prefix (b0 : Glue.Builder) (cs : List Glue.Setter) :
     b0.run cs = none ↔ ∃ pre c post b, cs = pre ++ c :: post ∧ b0.run pre = some b ∧ b.set c = none :=
   Glue.Builder.run_eq_none_iff b0 cs
 
+/-- The defaults are tuning constants which the correspondence reads from the running crate: whatever they are, as long
+    as the setters themselves would accept them (`Defaults.ok`, checked on every run), every configuration that comes out
+    of the builder is `Valid`. (`Builder.new` is `Builder.newWith Defaults.crate`, the values of the pinned tree.) -/
+theorem G17_accepted_config_valid_any_defaults (d : Glue.Defaults) (hd : d.ok = true) (c cap : Nat) (w : Int)
+    (cs : List Glue.Setter) (b0 b : Glue.Builder) :
+    Glue.Builder.newWith d c cap w = some b0 → b0.run cs = some b → b.Valid :=
+  fun h0 hr => Glue.Builder.run_valid (Glue.Builder.newWith_valid hd h0) hr
+
+theorem G17_new_is_newWith_crate_defaults (c cap : Nat) (w : Int) :
+    Glue.Builder.new c cap w = Glue.Builder.newWith Glue.Defaults.crate c cap w ∧ Glue.Defaults.crate.ok = true :=
+  ⟨Glue.Builder.new_eq_newWith_crate c cap w, Glue.Defaults.crate_ok⟩
+
+/-- defaults that a setter would refuse are NOT harmless: with 100 default shards the untouched builder is accepted and
+    `CacheD::new` fails on it -/
+example : ({ pool := 32, buf := 64, cmd := 1024, shards := 100, tickNs := 1 } : Glue.Defaults).ok = false ∧
+    ((Glue.Builder.newWith { pool := 32, buf := 64, cmd := 1024, shards := 100, tickNs := 1 } 10 10 100).bind
+      (fun b => Glue.cachedNew b [1, 2, 3, 4])) = none := by decide
+
 /-- the hypotheses of `G17_accepted_config_valid` are met; the resulting configuration -/
 example : (Glue.Builder.new 10 10 100).bind (fun b0 => b0.run [.shards 4, .pool 3, .cmd 1]) =
     some { counters := 10, capacity := 10, cacheWeight := 100, pool := 3, buf := 64, cmd := 1, shards := 4,
